@@ -67,29 +67,37 @@ def emit (w : World) (noFormat : Bool) (raw : Str) : Result × List Effect :=
     | none => (.errFormat raw, [.format raw])
     | some out => (if w.writer out then .ok else .errWriter, [.format raw, .callerWrite out])
 
+/-- `File.Render` once the raw source is known -/
+def fileRenderFrom (w : World) (noFormat misuse : Bool) (raw : Str) : Result × List Effect :=
+  if misuse then (.errMisuse, []) else emit w noFormat raw
+
+/-- `File.Save` once the raw source is known: render into a private buffer (a writer that never
+    fails), then one `os.WriteFile` -/
+def fileSaveFrom (w : World) (noFormat misuse : Bool) (raw : Str) : Result × List Effect :=
+  let r := fileRenderFrom { w with writer := fun _ => true } noFormat misuse raw
+  match r.1 with
+  | .ok =>
+    let out := match r.2.getLast? with
+      | some (.callerWrite b) => b
+      | _ => []
+    (if w.fs out then .ok else .errFs,
+     (r.2.filter fun e => match e with | .callerWrite _ => false | _ => true) ++ [.fsWrite out])
+  | e => (e, r.2)
+
 /-- `File.Render` -/
 def fileRender (w : World) (cfg : Cfg) (f : FileS) (body : List Code) : Result × List Effect × FileS :=
-  if misuse f.np (.group fileInfo body) then (.errMisuse, [], f)
-  else
-    let r := renderFileRaw cfg f body
-    let e := emit w f.noFormat r.1
-    (e.1, e.2, r.2)
+  let r := renderFileRaw cfg f body
+  let e := fileRenderFrom w f.noFormat (misuse f.np (.group fileInfo body)) r.1
+  (e.1, e.2, r.2)
 
 /-- `Statement.RenderWithFile` / `Group.RenderWithFile` for a fragment `c` -/
 def fragRender (w : World) (cfg : Cfg) (f : FileS) (c : Code) : Result × List Effect × FileS :=
-  if misuse f.np c then (.errMisuse, [], f)
-  else
-    let r := renderS cfg f none c
-    let e := emit w false r.1
-    (e.1, e.2, r.2)
+  let r := renderS cfg f none c
+  let e := fileRenderFrom w false (misuse f.np c) r.1
+  (e.1, e.2, r.2)
 
-/-- `File.Save`: render into a private buffer (a writer that never fails), then one `os.WriteFile` -/
+/-- `File.Save` -/
 def fileSave (w : World) (cfg : Cfg) (f : FileS) (body : List Code) : Result × List Effect × FileS :=
-  let r := fileRender { w with writer := fun _ => true } cfg f body
-  match r.1 with
-  | .ok =>
-    let out := match r.2.1.getLast? with
-      | some (.callerWrite b) => b
-      | _ => []
-    (if w.fs out then .ok else .errFs, (r.2.1.filter fun e => match e with | .callerWrite _ => false | _ => true) ++ [.fsWrite out], r.2.2)
-  | e => (e, r.2.1, r.2.2)
+  let r := renderFileRaw cfg f body
+  let e := fileSaveFrom w f.noFormat (misuse f.np (.group fileInfo body)) r.1
+  (e.1, e.2, r.2)
